@@ -81,7 +81,24 @@ fn build_jtree(rng: &mut Rng, base: &Path, idx: u64) -> Tree {
     let files: BTreeSet<String> = files.into_iter().filter(|f| !dirs.contains(f)).collect();
     let rel_dirs: Vec<String> = dirs.into_iter().collect();
     let rel_files: Vec<String> = files.into_iter().collect();
-    materialise(base, idx, &rel_dirs, &rel_files)
+    let mut t = materialise(base, idx, &rel_dirs, &rel_files);
+    // symbolic links: `filter_entry(!is_symbolic_link)` prunes them, link directories are not
+    // descended; a link to a Java file is not a candidate, but a key may name it
+    if idx % 2 == 1 {
+        let jf: Vec<String> = t.real_files_under("src").into_iter().filter(|f| f.ends_with(".java") || f.ends_with(".kt")).collect();
+        let jd = t.dirs_under("src");
+        let mut links: Vec<(String, String)> = vec![("srclink".into(), "src".into()), ("src/loop".into(), "loop".into())];
+        if !jf.is_empty() {
+            links.push(("src/Link.java".into(), rng.pick(&jf).clone()));
+            links.push(("src/Foo.java".into(), format!("{{root}}/src/{}", rng.pick(&jf))));
+        }
+        if !jd.is_empty() {
+            links.push(("src/ldir".into(), rng.pick(&jd).clone()));
+            links.push(("src/gen2".into(), format!("{{root}}/src/{}", rng.pick(&jd))));
+        }
+        add_links(&mut t, &links);
+    }
+    t
 }
 
 /// the tree's entries in the order an unsorted walk yields them (pre-order, children in
@@ -109,7 +126,8 @@ fn gen_jcfg(rng: &mut Rng, t: &Tree) -> Cfg {
         18 => Some(format!("{}/a", t.src)),
         19 => Some("/nonexistent/srcdir".to_string()), // the walk panics when it is needed
         20 => Some(t.root.clone()),
-        21 => t.files_under("src").first().map(|f| format!("{}/{}", t.src, f)), // a regular file
+        21 => t.real_files_under("src").first().map(|f| format!("{}/{}", t.src, f)), // a regular file
+        22 if t.rel_links.iter().any(|(p, _)| p == "srclink") => Some(format!("{}/srclink", t.root)), // a link to the source dir
         _ => None,
     };
     let pd = match rng.below(10) {
@@ -338,7 +356,12 @@ pub fn spec(ord: &[String], cfg: &Cfg, keys: &[String], ignore: &[String]) -> Sp
                 !sdp.join(p).exists()
             });
         if sp.needed {
-            match std::fs::symlink_metadata(sdp) {
+            // walkdir follows a root that is a symbolic link (the entry itself is rejected by
+            // `filter_entry`, its directory is still read); a dangling root link is an error
+            let lmd = std::fs::symlink_metadata(sdp);
+            let is_link = lmd.as_ref().map(|m| m.file_type().is_symlink()).unwrap_or(false);
+            let md = if is_link { std::fs::metadata(sdp) } else { lmd };
+            match md {
                 Err(_) => sp.walk_panic = true,
                 Ok(md) => {
                     sp.root_is_dir = md.is_dir();
@@ -348,7 +371,7 @@ pub fn spec(ord: &[String], cfg: &Cfg, keys: &[String], ignore: &[String]) -> Sp
                         .map(|k| k.rsplit(|c| c == '/' || c == '\\').next().unwrap())
                         .collect();
                     let ig = glob_set(ignore);
-                    if md.is_dir() && !root_name.starts_with('.') {
+                    if md.is_dir() && (is_link || !root_name.starts_with('.')) {
                         let croot = std::fs::canonicalize(sdp).unwrap();
                         let croot = croot.to_str().unwrap().trim_end_matches('/').to_string();
                         for p in ord {
@@ -357,7 +380,9 @@ pub fn spec(ord: &[String], cfg: &Cfg, keys: &[String], ignore: &[String]) -> Sp
                                 continue; // a hidden directory prunes its subtree; hidden files are skipped
                             }
                             let name = rel.rsplit('/').next().unwrap();
-                            if !is_partial(Path::new(name)) || !Path::new(p).is_file() {
+                            // a regular file itself (a symbolic link to one is pruned by the walk)
+                            let regular = std::fs::symlink_metadata(p).map(|m| m.is_file()).unwrap_or(false);
+                            if !is_partial(Path::new(name)) || !regular {
                                 continue;
                             }
                             if !covered.contains(name) || ig.is_match(rel) {
